@@ -30,7 +30,7 @@ def _weights(X):
     return np.sort(X[X != 0])
 
 
-def _invariants(name, W, X, directed, case, fails, what="output"):
+def _invariants(name, W, X, directed, case, fails, what="output", nearsym=False):
     """Degree / multiset / diagonal / symmetry / out-strength of X vs W (same numbering)."""
     X = np.asarray(X)
     if X.shape != W.shape:
@@ -50,7 +50,8 @@ def _invariants(name, W, X, directed, case, fails, what="output"):
     if np.any(np.diag(X) != 0):
         fails.append(Failure("%s:%s-self-connection-created" % (name, what), "diag %s" % np.diag(X), case))
     if not directed:
-        if not np.array_equal(X, X.T):
+        # (input symmetric only up to round-off: the output has to be symmetric to the same degree, every weight still exactly preserved)
+        if not (np.allclose(X, X.T, rtol=1e-5, atol=0) and np.array_equal(X != 0, X.T != 0) if nearsym else np.array_equal(X, X.T)):
             fails.append(Failure("%s:%s-not-symmetric" % (name, what), "", case))
     else:
         s0 = np.asarray(W, dtype=float).sum(axis=1)
@@ -102,6 +103,9 @@ def check(case, ctx):
     ctx.label("family:" + case.get("family", "?"))
     id0, od0 = _deg(W)
     rich = len(set(id0.tolist())) >= 3 or not np.array_equal(id0, od0)
+    ns = bool(case.get("nearsym"))
+    if ns:
+        ctx.label("symmetric-only-up-to-round-off")
 
     with rewire.SwapRecorder() as rec:
         if name in rewire.LATMIO:
@@ -133,8 +137,8 @@ def check(case, ctx):
         if sorted(ind_rp.tolist()) != list(range(n)):
             fails.append(Failure("%s:ind_rp-not-a-permutation" % name, "%s" % ind_rp, case))
             return fails
-        _invariants(name, W, Rlatt, directed, case, fails, "Rlatt(original-order)")
-        _invariants(name, W[np.ix_(ind_rp, ind_rp)], Rrp, directed, case, fails, "Rrp(latticisation-order)")
+        _invariants(name, W, Rlatt, directed, case, fails, "Rlatt(original-order)", nearsym=ns)
+        _invariants(name, W[np.ix_(ind_rp, ind_rp)], Rrp, directed, case, fails, "Rrp(latticisation-order)", nearsym=ns)
         if Rlatt.shape == Rrp.shape and not np.array_equal(Rlatt[np.ix_(ind_rp, ind_rp)], Rrp):
             fails.append(Failure("%s:Rlatt-not-Rrp-reindexed-by-ind_rp" % name,
                                  "Rlatt[ix(ind_rp,ind_rp)] != Rrp (ind_rp=%s)" % ind_rp.tolist(), case))
@@ -146,7 +150,7 @@ def check(case, ctx):
             fails.append(Failure("%s:eff-differs-from-swaps-carried-out" % name, "eff=%s, accepted swaps observed=%d" % (eff, rec.count), case))
     elif name in ("randomize_graph_partial_und", "randomizer_bin_und"):
         X = np.asarray(o.value, dtype=float)
-        _invariants(name, W, X, False, case, fails)
+        _invariants(name, W, X, False, case, fails, nearsym=ns)
         if name == "randomize_graph_partial_und":
             if case["maxswap"] == 0 and not np.array_equal(X, W):
                 fails.append(Failure("%s:changed-although-nothing-rewired" % name, "maxswap=0", case))
@@ -163,7 +167,7 @@ def check(case, ctx):
             X = np.asarray(X, dtype=float)
         except Exception:
             return [Failure("%s:bad-return" % name, repr(o.value)[:200], case)]
-        _invariants(name, W, X, directed, case, fails)
+        _invariants(name, W, X, directed, case, fails, nearsym=ns)
         if (case["itr"] == 0 or eff == 0) and not np.array_equal(X, W):
             fails.append(Failure("%s:changed-although-nothing-rewired" % name, "itr=%s eff=%s but output != input" % (case["itr"], eff), case))
         moved = eff >= 1
@@ -199,6 +203,15 @@ def cases(draw, names, nmax):
         A, fam = draw(rewire.dir_adj(4, nmax, connected))
     else:
         A, fam = draw(rewire.und_adj(4, nmax, connected))
+        if nmax >= 30 and not connected and draw(st.integers(0, 2)) == 0:
+            # hub-dominated network: a hub with 46-62 spokes and one or two connections elsewhere. Two random connections are
+            # vertex-disjoint only ~3% of the time, so the redraw loops of the routines run for dozens of rounds
+            m = draw(st.integers(48, 64))
+            A = gen.star_adj(m).copy()
+            A[1, 2] = A[2, 1] = True
+            if draw(st.booleans()):
+                A[3, 4] = A[4, 3] = True
+            fam = "hub"
     A = rewire.shuffle(draw, A)
     n = len(A)
     if name == "randomizer_bin_und":
@@ -228,6 +241,14 @@ def cases(draw, names, nmax):
     else:
         W = draw(gen.weights_for(A, draw(st.sampled_from(["bin", "dyadic", "dyadic"])), directed))
     case = {"fn": name, "W": W, "seed": draw(gen.seeds()), "family": fam, "order": draw(st.sampled_from(gen.ORDERS))}
+    if name in ("randmio_und", "latmio_und", "randomize_graph_partial_und") and not np.all((W == 0) | (W == 1)) and draw(st.integers(0, 3)) == 0:
+        # symmetric only up to round-off (upper triangle larger by 4e-6 relative): accepted by the routines' own symmetry test,
+        # so every one of the 2m stored weights has to survive
+        W = W.copy()
+        iu = np.triu_indices(n, 1)
+        W[iu] = W[iu] * (1 + 2.0 ** -18)
+        case["W"] = W
+        case["nearsym"] = True
     if name == "randomize_graph_partial_und":
         case["maxswap"] = (draw(st.integers(0, 10)) + 3) % 11        # minimal draw -> 3 swaps, not 0
         dens = draw(st.sampled_from([0, 2, 5]))
